@@ -86,6 +86,7 @@ type zvsCase struct {
 	Tid    string    `json:"tid"`
 	Eps    []zvsTpl  `json:"eps"`
 	Bundle zvsBundle `json:"bundle"`
+	Next   []zvsTpl  `json:"next"`  // outcome vector of a second signing call on the same Signer (empty: one call)
 	Req    string    `json:"req"`   // request content class (default "full")
 	Tries  int       `json:"tries"` // tries per endpoint of the retry interceptor (default 1)
 	Ctx    string    `json:"ctx"`   // request budget: "wide" (default) | "tight" | "none" | "ample"
@@ -113,6 +114,7 @@ type zvsReset struct {
 	Eps    []zvsTpl  `json:"eps"`
 	Bundle zvsBundle `json:"bundle"`
 	Ctx    string    `json:"ctx"`
+	Next   []zvsTpl  `json:"next"`
 	Req    string    `json:"req"`
 	Tries  int       `json:"tries"`
 	Hist   string    `json:"hist"`
@@ -575,6 +577,22 @@ func (p *zvsPKI) leaf(id string, pos int) *tls.Certificate {
 	case "expired":
 		parent = p.ca["ca1"]
 		tpl.NotBefore, tpl.NotAfter = now.Add(-72*time.Hour), now.Add(-24*time.Hour)
+	case "expired1m", "expired4m", "expired10m", "notyet1m", "notyet4m", "valid2m": // validity boundaries (relative to the minting of this leaf)
+		parent = p.ca["ca1"]
+		switch id {
+		case "expired1m":
+			tpl.NotAfter = now.Add(-1 * time.Minute)
+		case "expired4m":
+			tpl.NotAfter = now.Add(-4 * time.Minute)
+		case "expired10m":
+			tpl.NotAfter = now.Add(-10 * time.Minute)
+		case "notyet1m":
+			tpl.NotBefore = now.Add(1 * time.Minute)
+		case "notyet4m":
+			tpl.NotBefore = now.Add(4 * time.Minute)
+		case "valid2m":
+			tpl.NotAfter = now.Add(2 * time.Minute)
+		}
 	case "wrongname":
 		parent = p.ca["ca1"]
 		tpl.IPAddresses = []net.IP{net.IPv4(127, 0, 9, byte(pos))}
@@ -1210,8 +1228,11 @@ func (l *zvsLane) run(c *zvsCase, base *zvsBase, r *mrand.Rand, tryMs int) []int
 		}
 		s.dialOptions = append(append([]grpc.DialOption{}, s.dialOptions...), grpc.WithTransportCredentials(insecure.NewCredentials()), grpc.WithContextDialer(caseDial))
 	}
-	res := zvsReset{Ev: "reset", Tid: c.Tid, Eps: c.Eps, Bundle: zvsBundle{Cas: zvsNorm(c.Bundle.Cas), Lay: c.Bundle.Lay}, Ctx: c.Ctx, Req: c.Req, Tries: c.Tries, Hist: c.Hist, Info: c.Info}
-	if s != nil {
+	if c.Next == nil {
+		c.Next = []zvsTpl{}
+	}
+	res := zvsReset{Ev: "reset", Tid: c.Tid, Eps: c.Eps, Bundle: zvsBundle{Cas: zvsNorm(c.Bundle.Cas), Lay: c.Bundle.Lay}, Ctx: c.Ctx, Next: c.Next, Req: c.Req, Tries: c.Tries, Hist: c.Hist, Info: c.Info}
+	doCall := func(lastCall bool) {
 		var certs []ssh.PublicKey
 		var comments []string
 		var err error
@@ -1313,6 +1334,9 @@ func (l *zvsLane) run(c *zvsCase, base *zvsBase, r *mrand.Rand, tryMs int) []int
 		// compiles whether or not the method exists)
 		func() {
 			defer func() { recover() }()
+			if !lastCall {
+				return // the Signer is going to be asked again
+			}
 			switch x := interface{}(s).(type) {
 			case interface{ Close() error }:
 				x.Close()
@@ -1376,6 +1400,25 @@ func (l *zvsLane) run(c *zvsCase, base *zvsBase, r *mrand.Rand, tryMs int) []int
 			}
 		}
 		step(map[string]interface{}{"op": "return", "err": err != nil, "pan": pan, "hang": hang, "kept": kept, "certs": fps, "cm": cms})
+	}
+	if s != nil {
+		doCall(len(c.Next) == 0)
+		if len(c.Next) > 0 {
+			// a second signing call on the same Signer; the endpoints now behave as c.Next says
+			c2 := *c
+			c2.Eps = append([]zvsTpl{}, c.Next...)
+			c2.Info = &zvsInfo{}
+			zvsInstantiate(&c2, r)
+			c.Next = c2.Eps
+			res.Next = c2.Eps
+			c.Info.Big = true // the replies of the second call are re-created from the templates on replay
+			l.mu.Lock()
+			l.cur, l.reply, l.hits = &c2, c2.raw, nil
+			l.req = proto.Clone(req).(*pb.SSHCertificateSigningRequest)
+			l.mu.Unlock()
+			out = append(out, zvsStep{Ev: "step", Tid: c.Tid, E: map[string]interface{}{"op": "nextcall", "eps": c2.Eps}})
+			doCall(true)
+		}
 	}
 	l.mu.Lock()
 	l.cur = nil
